@@ -16,5 +16,6 @@ sed "s#@REPO@#$REPO#" harness/go.mod.tmpl > harness/bin/go.mod
 cp $REPO/go.sum harness/bin/go.sum
 cp $REPO/go.sum harness/go.sum
 (cd harness && timeout 1800 go build -modfile bin/go.mod -tags verif -o bin/gpverif ./cmd/gpverif)
+(cd harness && timeout 1800 go build -race -modfile bin/go.mod -o bin/racecheck ./cmd/racecheck || true)
 ./check --warm
 echo setup done
